@@ -19,6 +19,9 @@ struct GroupState {
     group: Group,
     /// ids (per the group's asset) of the orders this group created
     own: Vec<usize>,
+    /// momentum groups: the documented recurrence, recomputed from the mids the harness observed at each update
+    last_price: Option<f64>,
+    momentum: f64,
 }
 
 pub fn make_rng(scn: &W4Scn) -> SeamRng {
@@ -72,7 +75,7 @@ pub fn execute_c16(scn: &W4Scn) -> RunOutcome {
         let mut groups: Vec<GroupState> = vec![];
         for s in &scn.agents {
             let g = guard(|| Group::new(s, cfg)).map_err(|m| viol(scn, "agent-abort", 0, "agent construction", "no abort".into(), m))?;
-            groups.push(GroupState { spec: s.clone(), group: g, own: vec![] });
+            groups.push(GroupState { spec: s.clone(), group: g, own: vec![], last_price: None, momentum: 0.0 });
         }
         let assets = w.assets();
         for step in 0..cfg.n_steps as usize {
@@ -184,7 +187,14 @@ pub fn execute_c16(scn: &W4Scn) -> RunOutcome {
                                 return Err(bad("buy price", format!("<= mid {}", mid), o.price.to_string()));
                             }
                             if !o.bid && (o.price as f64) < mid {
-                                return Err(bad("sell price", format!(">= mid {}", mid), o.price.to_string()));
+                                // the only excuse: the observed mid lies above the highest price of the grid, so that no
+                                // valid sell price at or above it exists (then the highest grid price is the nearest one)
+                                let top = (PMAX - 1) / tick * tick;
+                                if mid > top as f64 && o.price >= top {
+                                    stats.probe("sell_above_grid_top_excused");
+                                } else {
+                                    return Err(bad("sell price", format!(">= mid {}", mid), o.price.to_string()));
+                                }
                             }
                         }
                         let nn = *n as usize;
@@ -205,7 +215,37 @@ pub fn execute_c16(scn: &W4Scn) -> RunOutcome {
                         }
                         check_cancel_corner(*p_cancel, &own_active, &d.cancels, &corner, &mut stats)?;
                     }
-                    AgentSpec::Momentum { id_start, n, p_cancel, trade_vol, .. } => {
+                    AgentSpec::Momentum { id_start, n, p_cancel, trade_vol, decay, demand, scale, order_ratio, .. } => {
+                        // documented probability |demand * tanh(scale * M)| / n with M from the observed mids
+                        let (mm, pp) = match gs.last_price {
+                            Some(lp) => {
+                                let mm = gs.momentum * (1.0 - decay) + decay * (mid - lp);
+                                (mm, (demand * f64::tanh(scale * mm)).abs() / (*n as f64))
+                            }
+                            None => (0.0, 0.0),
+                        };
+                        gs.momentum = mm;
+                        gs.last_price = Some(mid);
+                        let n_mkt = d.new_orders.iter().filter(|(_, o)| is_market_order(o)).count();
+                        let n_lim = d.new_orders.len() - n_mkt;
+                        if pp == 0.0 && !d.new_orders.is_empty() {
+                            return Err(corner("momentum probability 0", "no order (M = 0)".into(), format!("{} orders", d.new_orders.len())).detail(format!("M = {:e}", mm)));
+                        }
+                        if pp >= 1.0 + 1e-9 && n_mkt != *n as usize {
+                            return Err(corner("momentum probability >= 1", format!("exactly {} market orders", n), n_mkt.to_string()).detail(format!("M = {:e}, p = {:e}", mm, pp)));
+                        }
+                        if order_ratio * pp >= 1.0 + 1e-9 && n_lim != *n as usize {
+                            return Err(corner("momentum limit probability >= 1", format!("exactly {} limit orders", n), n_lim.to_string()).detail(format!("M = {:e}, p = {:e}", mm, pp)));
+                        }
+                        if *order_ratio == 0.0 && n_lim != 0 {
+                            return Err(corner("momentum order ratio 0", "no limit order".into(), n_lim.to_string()));
+                        }
+                        if pp == 0.0 {
+                            stats.probe("momentum_corner_p_eq_0");
+                        }
+                        if pp >= 1.0 + 1e-9 {
+                            stats.probe("momentum_corner_p_ge_1");
+                        }
                         let mut sides: Vec<bool> = vec![];
                         for (_, o) in &d.new_orders {
                             if o.trader < *id_start || o.trader >= *id_start + *n as u32 {
@@ -225,7 +265,12 @@ pub fn execute_c16(scn: &W4Scn) -> RunOutcome {
                                 return Err(bad("buy price", format!("<= mid {}", mid), o.price.to_string()));
                             }
                             if !o.bid && (o.price as f64) < mid {
-                                return Err(bad("sell price", format!(">= mid {}", mid), o.price.to_string()));
+                                let top = (PMAX - 1) / tick * tick;
+                                if mid > top as f64 && o.price >= top {
+                                    stats.probe("sell_above_grid_top_excused");
+                                } else {
+                                    return Err(bad("sell price", format!(">= mid {}", mid), o.price.to_string()));
+                                }
                             }
                         }
                         if sides.iter().any(|s| *s != sides[0]) {
